@@ -473,6 +473,14 @@ class Check:
         for obj in picked:
             self.cov["samples"].append(_shorten(obj))
 
+    def vacuity(self, msg):
+        """a coverage guard failed: a tool error on a run without findings; with findings the run is already decided
+        (the code under test may be the reason the expected outcomes are missing)"""
+        if self.violations:
+            log("coverage guard not met (%s) - run already has violations, reporting those" % msg)
+            return
+        raise ToolError(msg)
+
     def violation(self, signature, description, replay_obj):
         """Register a candidate violation; known findings are filtered at finish()."""
         self.violations.append((signature, description, replay_obj))
